@@ -54,6 +54,9 @@ MODELS = {
     # pinned-code sanity: the defects repaired in /repo are violations of the model
     "pinned_d5":   M([G1, G2], parts=1, crash=0, clock=3, pinned=("D5",)),
     "pinned_d4":   M([G1, G2], parts=1, crash=1, clock=3, w=1, pinned=("D4",)),
+    # beyond exhaustive reach: random walks (tlc -simulate) mined for schedules in the thorough tier
+    "sim_big":     M([G1, G2, G3, CONF], parts=3, pays=3, crash=2, clock=6, w=2),
+    "sim_two":     M([G1, G2, B1, B2], hashes=("h1", "h2"), parts=2, pays=3, crash=1, clock=5, w=1),
     # thorough
     "t_restart3":  M([G1, G2, G3], parts=2, crash=1, clock=4),
     "t_overlap2":  M([G1, G2, G3], parts=2, pays=2, clock=4),
@@ -376,7 +379,7 @@ def scenario(name):
 def write_all():
     for n, m in MODELS.items():
         write_model(n, m)
-        if not n.startswith("pinned") and not n.startswith("t_"):
+        if not n.startswith("pinned") and not n.startswith("t_") and not n.startswith("sim_"):
             write_conform(n, m)
     # liveness instances: C06 (everything fair) and C14 (hash h1 frozen, h2 must still be answered)
     write_live("live", M([G1, G2, CONF], parts=1, pays=1))
